@@ -116,13 +116,7 @@ def run_parallel(fns):
 
 def _printed_hists(out: str):
     """The values TLC printed for EmitHist (pretty-printed over several lines)."""
-    hs, pos = [], 0
-    while True:
-        pos = out.find('<<"HIST",', pos)
-        if pos < 0:
-            return hs
-        hs.append(tlc.parse_tla(out[pos:])[1])
-        pos += 9
+    return [tlc.parse_tla(out[m.start():])[1] for m in re.finditer(r'^<<\s*"HIST",', out, re.M)]
 
 
 def enumerate_histories(name, c, timeout=900):
